@@ -67,7 +67,7 @@ def parse_mir(text):
             # promoted constants / consts with a body: evaluated like a zero-argument function when referenced
             m = re.match(r'(?:const|static(?: mut)?) (.*?): (.*) = \{$', line)
             if m:
-                cur = Fn(m.group(1), [], m.group(2), ln + 1); fns.append(cur); bb = None
+                cur = Fn('const ' + m.group(1), [], m.group(2), ln + 1); fns.append(cur); bb = None      # own namespace: `const <path>`
                 continue
         if cur is None: continue
         if line == '}': cur = None; continue
@@ -542,7 +542,7 @@ class Engine:
         m = re.fullmatch(r'(-?)inf(?:f64)?|(?:core::|std::)?f64::(?:<impl f64>::)?(INFINITY|NEG_INFINITY|NAN)', t)
         if m: return F64(2 if (m.group(1) or m.group(2) == 'NEG_INFINITY') else (0 if m.group(2) == 'NAN' else 1), 0)
         if t in ('NaNf64', 'NaN'): return F64(0, 0)
-        if 'promoted[' in t:
+        if 'promoted[' in t or re.fullmatch(r'(?:[a-z_][a-z0-9_]*::)*[A-Z][A-Z0-9_]*', t):
             tt = t
             while '::<' in tt:           # drop every generic-argument segment, including `::<impl Trait>` ones
                 i0 = tt.index('::<'); d = 0; j = i0 + 2
@@ -555,9 +555,9 @@ class Engine:
                 tt = tt[:i0] + tt[j+1:]
             parts = tt.split('::')
             for k in range(len(parts)):          # the use site prints the full module path (and generic arguments), the definition a shorter one
-                pf = s.by_name.get('::'.join(parts[k:]))
-                if pf is not None and not pf.params: return s.run_fn(pf, [])
-            raise Missing('promoted constant ' + t)
+                pf = s.by_name.get('const ' + '::'.join(parts[k:]))
+                if pf is not None and not pf.params and pf.blocks: return s.run_fn(pf, [])
+            if 'promoted[' in t: raise Missing('promoted constant ' + t)
         if re.fullmatch(r'[\w:<>, {}@.#\[\]&\'()\-=]+', t): return FnItem(t)
         raise Missing('const ' + t)
 
